@@ -22,7 +22,7 @@ oracle
   idle_derived         : add_idle_gates on sets of 7..257 (thorough 1000) active gates whose names are dotted, dunder, longer
                          than 255 characters, keyword-like, `I_`-prefixed, or near misses of prepare_all / measure_all: every
                          active gate other than prepare_all / measure_all has I_<name> with the same signature, no used qubits,
-                         no unitary; IdleGateDefinition(g) / (g, None) / (g, name=None) / (g, "") agree.
+                         no unitary; IdleGateDefinition(g) / (g, None) / (g, name=None) agree.
   stretch_variant      : stretched_gates for every combination of the optional arguments (none given, suffix None / "" / "_s" /
                          ".s" / a 300-character suffix, update False / True / not given) on such sets, with / without idle gates,
                          idle gates without their parents, idle gates before their parents: result[name+suffix] has the
@@ -39,8 +39,8 @@ oracle
                          the flattened program is computed as well; when the run WITHOUT idle / stretched gates deviates from
                          it the case is counted in `distribution` (`emu:base_run_differs(not C18)`) and not reported here.
 
-Known, reported, excluded from the stream: a parameter named `self` - g(q) gives a statement, g(self=q) is a TypeError raised at
-the Python call site (`call(self, *args, **kwargs)`), like the repeated keyword listed in the check's assumptions.
+A parameter named `self` (legal in Jaqal: `macro foo self { ... }`) is part of the keyword streams: g(self=q) must give the statement
+of g(q) (repaired in /repo commit 6ee23b2: AbstractGate.call / __call__ take `self` positional-only).
 
 CLI: PYTHONPATH=/verif /venv/bin/python -m harness.agents.c18_scale [--seed S] [--n N] [--thorough]
 """
@@ -153,7 +153,7 @@ def style_name(style, i):
 
 
 PARAM_STYLES = ["plain", "dotted", "dunder", "long", "pyname", "stretchlike", "pairs", "prefixes"]
-PYNAMES = ["lambda", "class", "def", "None", "True", "if", "import", "args", "kwargs", "name", "parameters", "cls", "call", "__class__",
+PYNAMES = ["self", "lambda", "class", "def", "None", "True", "if", "import", "args", "kwargs", "name", "parameters", "cls", "call", "__class__",
            "__dict__", "__init__", "_name", "_parameters", "params", "param", "key", "value", "ex", "gate", "other", "copy"]
 STRETCHLIKE = ["stretch_", "stretch.", "Stretch", "_stretch", "stretch0", "stretch.stretch", "s", "st", "stretc", "STRETCH", "stretch__"]
 
@@ -179,12 +179,18 @@ def param_name(style, i):
     raise ValueError(style)
 
 
-def near_miss(name, taken):
-    """A keyword that is NOT a parameter name but looks like one."""
-    for c in (name + "_", "cal." + name, name + ".x", name[:-1], name.upper(), " " + name, name + " ", "_" + name, name * 2):
-        if c not in taken and c != "self":
-            return c
-    return name + "?"
+def near_miss(name, taken, rng=None):
+    """A keyword that is NOT a parameter name but looks like one (the unqualified / the qualifying part of a dotted name first)."""
+    cands = []
+    if "." in name:
+        cands += [name.rsplit(".", 1)[-1], name.split(".", 1)[0], name.split(".", 1)[-1], name.replace(".", "_"), name.replace(".", "")]
+    cands += [name + "_", "cal." + name, name + ".x", name[:-1], name.upper(), " " + name, name + " ", "_" + name, name * 2, name.strip("_"), name + "."]
+    cands = [c for c in cands if c not in taken and c != name]
+    if not cands:
+        return name + "?"
+    if rng is None or ("." in name and rng.random() < 0.5):
+        return cands[0]
+    return rng.choice(cands)
 
 
 def unambiguous(names, sfx):
@@ -554,6 +560,21 @@ def variant(g, via, sfx="_s"):
     raise ValueError(via)
 
 
+def safe_variant(g, via, res):
+    """variant(), a failure to DERIVE the idle / stretched gate being a failure of that part of the property."""
+    try:
+        return variant(g, via)
+    except Exception as e:  # noqa: BLE001
+        if via.startswith("stretched"):
+            name = "stretch_variant"
+        elif via == "idle_stretched" and not isinstance(e, real()["JaqalError"]):
+            name = "stretch_variant"
+        else:
+            name = "idle_derived"
+        res.append((name, False, f"deriving the {via} variant of the active gate {g.name[:60]!r} ({len(g.parameters)} parameters) raised {type(e).__name__}: {str(e)[:150]}"))
+        return None
+
+
 VIAS = ["direct", "idle", "idle_ctor", "stretched", "stretched_default", "stretched_update", "idle_stretched", "macro"]
 
 
@@ -596,7 +617,9 @@ def check_value_case(case):
     raw_none = case.get("rawnone", False)
     params = [P(nm, None if (k is None and raw_none) else ptype(k)) for nm, k in zip(names, kinds)]
     base = R["Macro"]("G", params) if via == "macro" else R["GateDefinition"](case.get("gname", "G"), params)
-    g = variant(base, via)
+    g = safe_variant(base, via, res)
+    if g is None:
+        return res
     values = [fit_value(k, rng, i) for i, k in enumerate(kinds)]
     V = mkval(spec)
     if is_stretched(via):
@@ -647,7 +670,9 @@ def check_sig_case(case):
     params = [P(nm, ptype(k)) for nm, k in zip(names, kinds)] if not (n == 0 and case.get("noparams")) else None
     gname = case.get("gname", "G")
     base = R["Macro"](gname, params) if via == "macro" else R["GateDefinition"](gname, params) if params is not None else R["GateDefinition"](gname)
-    g = variant(base, via)
+    g = safe_variant(base, via, res)
+    if g is None:
+        return res
     values = [fit_value(k, rng, i) for i, k in enumerate(kinds)]
     if is_stretched(via):
         names = names + ["stretch"]
@@ -671,7 +696,7 @@ def check_sig_case(case):
             if N > 1:
                 calls.append(("keyword", None, [x for i, x in enumerate(sh) if x[0] != names[drop]], False, f"{sig}, keyword {names[drop][:40]!r} (#{drop}) missing"))
         k = rng.randrange(N)
-        nm = near_miss(names[k], set(names))
+        nm = near_miss(names[k], set(names), rng)
         calls.append(("keyword", None, [(nm if a == names[k] else a, b) for a, b in sh], False, f"{sig}, keyword #{k} spelt {nm[:40]!r} instead of {names[k][:40]!r}"))
         calls.append(("keyword", None, sh + [(nm, 1)], False, f"{sig}, extra keyword {nm[:40]!r}"))
     extra = fit_value(rng.choice(KINDS), rng)
@@ -693,7 +718,7 @@ def check_sig_case(case):
 # ====================================================================================================== gate sets
 SIG_POOL = [[], [["q", "QUBIT"]], [["q", "QUBIT"], ["t", "FLOAT"]], [["t", "FLOAT"], ["q", "QUBIT"]], [["a", "QUBIT"], ["b", "QUBIT"]],
             [["r", "REGISTER"], ["k", "INT"]], [["p0", None]], [["q", "QUBIT"], ["p", None], ["f", "FLOAT"]], [["k", "INT"], ["f", "FLOAT"], ["j", "INT"]],
-            [["cal.q", "QUBIT"], ["__t__", "FLOAT"]], [["stretch_", "FLOAT"], ["q", "QUBIT"]]]
+            [["cal.q", "QUBIT"], ["__t__", "FLOAT"]], [["stretch_", "FLOAT"], ["q", "QUBIT"]], [["self", "QUBIT"], ["cls", "FLOAT"]]]
 
 
 def marker_fn(marker):
@@ -754,7 +779,7 @@ def probe_calls(g, rng, res, oracle, label):
     names = [p.name for p in g.parameters]
     values = [fit_value(k, rng, i) if not (names[i] == "stretch" and i == len(names) - 1) else rng.choice([2.5, 0, -3.0]) for i, k in enumerate(kinds)]
     calls = [("positional", values, None, True, f"{label} fitting arguments")]
-    if names and len(set(names)) == len(names) and "self" not in names:
+    if names and len(set(names)) == len(names):
         kw = list(zip(names, values))
         rng.shuffle(kw)
         calls.append(("keyword", None, kw, True, f"{label} fitting arguments"))
@@ -791,7 +816,7 @@ def check_idle_case(case):
         bad = idle_problem(out.get(key), g, key)
         res.append(("idle_derived", bad is None, f"add_idle_gates on {len(gs)} gates ({case['style']} names): {bad}"))
         for how, mk in (("IdleGateDefinition(g)", lambda: R["IdleGateDefinition"](g)), ("IdleGateDefinition(g, None)", lambda: R["IdleGateDefinition"](g, None)),
-                        ("IdleGateDefinition(g, name=None)", lambda: R["IdleGateDefinition"](g, name=None)), ("IdleGateDefinition(g, '')", lambda: R["IdleGateDefinition"](g, ""))):
+                        ("IdleGateDefinition(g, name=None)", lambda: R["IdleGateDefinition"](g, name=None))):
             try:
                 ig = mk()
                 bad2 = idle_problem(ig, g, key)
@@ -859,7 +884,8 @@ def check_stretch_case(case):
             if nm not in ("prepare_all", "measure_all"):
                 gs["I_" + nm] = R["IdleGateDefinition"](g)
             gs[nm] = g
-    has_idle = {nm for nm in parents if "I_" + nm in gs}
+    has_idle = {nm for nm in parents if nm not in ("prepare_all", "measure_all") and mode != "none" and isinstance(gs.get("I_" + nm), R["IdleGateDefinition"])
+                and gs["I_" + nm]._parent_def is parents[nm]}
     label = f"stretched_gates(<{len(gs)} gates, {case['style']} names, idle {mode}>, {', '.join(f'{k}={v if not isinstance(v, str) or len(v) < 12 else v[:8] + chr(8230)!s}' for k, v in opts.items()) or 'no options'})"
     try:
         out = R["stretched_gates"](gs, **opts)
